@@ -108,7 +108,7 @@ func genSender(t *rapid.T) SenderScript {
 		case "date":
 			s.RetrySecs = rapid.SampledFrom([]int{2, 3, 30, 3600}).Draw(t, "secs")
 		case "garbage":
-			s.Garbage = rapid.SampledFrom([]string{"", "soon", "1.5", "-5", "0x10", "1s", " 2", "Thu, 01 Jan 1970 00:00:00 GMT"}).Draw(t, "garbage")
+			s.Garbage = rapid.SampledFrom([]string{"", "soon", "1.5", "-5", "0x10", "1s", "two", "Thu, 01 Jan 1970 00:00:00 GMT"}).Draw(t, "garbage")
 		}
 		s.Body = rapid.SampledFrom([]string{"status", "status", "empty", "garbage"}).Draw(t, "body")
 	}
@@ -232,7 +232,7 @@ func runSenderInner(s *SenderScript) (bool, *vt.Finding) {
 		return true, probeSender(c, "http", what, sendErr, false, time.Duration(s.RetrySecs)*time.Second)
 	case httpCarriesRetryAfter(s.Status) && s.RetryAfter == "date":
 		n, res := E.probe.attempts(sendErr, notBefore.Add(-100*time.Millisecond))
-		if n != 1 || res == nil {
+		if n > 1 || res == nil {
 			return true, vt.Failf("sender/http/throttle-not-honoured", "%s: Retry-After names %v, but a retrying sender made %d attempts before that instant: %v", what, notBefore, n, sendErr)
 		}
 		c.Class("probe:throttle-honoured(date)")
@@ -250,5 +250,5 @@ func runSenderInner(s *SenderScript) (bool, *vt.Finding) {
 
 func TestHTTPSenderTable(t *testing.T) {
 	E = newEnv(t)
-	vt.Run(t, cSender, vt.N(2500, 60000), genSender, runSender)
+	vt.Run(t, cSender, vt.N(4000, 200000), genSender, runSender)
 }
